@@ -1553,6 +1553,10 @@ fn gen_c07(rng: &mut Rng, r: u64, tier: &str) -> Value {
                 let mut w = json!({"k":"api","op":"write","entry":*rng.pick(&["write","opts","create"]),"key":0,"val":vi});
                 if w["entry"] == "opts" {
                     w["opts"] = json!({"time": (100 + ci).to_string(), "meta": {"by": ci}});
+                    if rng.chance(1, 4) {
+                        // one record larger than a page / than the usual 8 KiB and 64 KiB buffers
+                        w["opts"]["meta"]["pad"] = json!("m".repeat(*rng.pick(&[5000usize, 9000, 20000, 70000])));
+                    }
                 }
                 w
             }
